@@ -15,10 +15,14 @@ type recMonitor struct {
 	id     int
 	clock  *int // index of the Layout call currently running (-1 between calls)
 	events []int
+	budget int // > 0: Log panics on every call after the first budget-1 calls (a monitor that aborts a run)
 }
 
 func (m *recMonitor) Log(phase int, alg, key string, val any) {
 	m.events = append(m.events, *m.clock)
+	if m.budget > 0 && len(m.events) >= m.budget {
+		panic("monitor: event budget exceeded")
+	}
 }
 
 func layoutWith(c Case, mon *recMonitor) (out graph.Layout, panicked bool) {
@@ -71,6 +75,33 @@ func oracleC18(c Case, r *Rng) []string {
 		}
 		if !p {
 			outs = append(outs, out)
+		}
+	}
+	// a monitor whose Log panics once its budget is used up (and on every later event): the call it was passed to
+	// ends in a panic, and the calls after it must not reach that monitor
+	if n0 := len(mons[0].events); n0 > 0 {
+		k := 1 + r.Intn(n0)
+		bm := &recMonitor{id: len(script), clock: &clock, budget: k}
+		i := len(script)
+		clock = i
+		_, p := layoutWith(c, bm)
+		clock = -1
+		if !p {
+			v = append(v, fmt.Sprintf("call %d: a monitor that panics at its event %d of %d did not make Layout panic", i, k, n0))
+		}
+		script = append(script, call{c, true, true})
+		mons = append(mons, bm)
+		for j := 0; j < 2; j++ {
+			clock = len(script)
+			out, p := layoutWith(c, nil)
+			clock = -1
+			script = append(script, call{c, false, false})
+			mons = append(mons, nil)
+			if p {
+				v = append(v, fmt.Sprintf("call %d (no monitor) panicked after a call whose monitor had panicked", len(script)-1))
+			} else {
+				outs = append(outs, out)
+			}
 		}
 	}
 	for i, m := range mons {
